@@ -158,3 +158,56 @@ def bounded_segment_laws(seed, tier):
                 fails.append({'input': inp, 'detail': 'raised %s: %s' % (type(ex).__name__, str(ex)[:80])})
     return {'function': 'pyx12.segment.Segment.get_value / set', 'evaluations': n,
             'bound': 'seeded segments of 0-8 elements x 1-4 components x designators to element 10 / component 5, seed %d' % seed, 'failures': fails}
+
+
+# ---- bounded native safety net (C01/C12): parse / format of segment texts of ANY length under any delimiters -------------------
+def bounded_segment_text(seed, tier):
+    """seeded segment texts of 0-40 elements x 1-5 components (empty pieces, blanks, other delimiters' characters as data, ISA
+    included) under 5 delimiter triples: the real Segment holds exactly spec_parse(text); format() is spec_format of it; parsing the
+    formatted text gives the same view again"""
+    import random
+    import pyx12.segment
+    rnd = random.Random(seed)
+    fails, n = [], 0
+    triples = [('~', '*', ':'), ('!', '|', '>'), ('\n', '^', '&'), ('\x1c', '\x1d', '\x1f'), ('$', '+', '<')]
+    vals = ['', 'A', '12', ' ', 'x y', '~', '*', ':', '|', '>', 'é', '-', '.']
+    for k in range(3000 if tier == 'quick' else 30000):
+        st, et, sub = triples[k % len(triples)]
+        ne = rnd.choice([0, 1, 2, 3, 5, 8, 16, 21, 22, 40])
+        sid = rnd.choice(['NM1', 'ISA', 'REF', 'X', '', 'HL '])
+        elems = []
+        for _ in range(ne):
+            comps = [rnd.choice([v for v in vals if v not in (st, et, sub)]) for _ in range(rnd.choice([1, 1, 1, 2, 3, 5]))]
+            elems.append(sub.join(comps))
+        text = sid + ''.join(et + e for e in elems) + rnd.choice(['', st])
+        n += 1
+        try:
+            seg = pyx12.segment.Segment(text, st, et, sub)
+            got = (seg.seg_id, [[c.get_value() for c in comp.elements] for comp in seg.elements])
+            want = spec_parse(text, st, et, sub)
+            if got != (want[0], want[1]):
+                if len(fails) < 8:
+                    fails.append({'input': {'text': text, 'delimiters': [st, et, sub]}, 'detail': 'parsed view %r, the text holds %r' % (got, want)})
+                continue
+            if seg.seg_id is None:
+                continue
+            out = seg.format(st, et, sub)
+            wout = spec_format(want[0], want[1], st, et, sub)
+            if out != wout and len(fails) < 8:
+                fails.append({'input': {'text': text, 'delimiters': [st, et, sub]}, 'detail': 'format() gives %r, expected %r' % (out, wout)})
+            seg2 = pyx12.segment.Segment(out, st, et, sub)
+            v2 = [[c.get_value() for c in comp.elements] for comp in seg2.elements]
+            if (seg2.seg_id, trim_view([list(trim_comp(c)) for c in v2])) != (want[0], trim_view([list(trim_comp(c)) for c in want[1]])) and len(fails) < 8:
+                fails.append({'input': {'text': text, 'delimiters': [st, et, sub]}, 'detail': 'format then parse changed the data: %r' % (v2,)})
+        except Exception as e:
+            if len(fails) < 8:
+                fails.append({'input': {'text': text, 'delimiters': [st, et, sub]}, 'detail': 'raised %s: %s' % (type(e).__name__, str(e)[:80])})
+    return {'function': 'pyx12.segment.Segment.__init__ / format', 'evaluations': n,
+            'bound': 'seeded texts of up to 40 elements x up to 5 components under 5 delimiter triples, seed %d' % seed, 'failures': fails}
+
+
+def trim_comp(c):
+    c = list(c)
+    while len(c) > 1 and c[-1] == '':
+        c.pop()
+    return c
